@@ -48,7 +48,7 @@ struct PWorld {
   bool call_fn_ran = false;        // the caller's payload was handed to an acceptor function
   int accepted = 0;                // payload the async_accept received (0 = none)
   int immediate = 0;               // payload a try_accept received
-  bool report_forwarder = false;   // the completion_forwarder finding is reported by ONE scenario
+  bool report_forwarder = false;   // the completion_forwarder finding is reported by the two cancel scenarios
 
   PWorld() { for (int i = 0; i < 2; ++i) { ctx[i].id = i; ctx[i].deferred = true; } }
 
@@ -78,9 +78,9 @@ struct PWorld {
     if (who == 1 && value) { if (accepted != 0) rt::fail("acceptor received two payloads"); accepted = payload; }
     if (who == 0 && value && !call_fn_ran) rt::fail("async_call completed with value although nobody accepted its payload");
     if (who == 0 && !value && call_fn_ran && report_forwarder)
-      rt::fail("async_call completed with done although its payload was accepted (completion_forwarder honours the stop token)");
+      rt::fail("async_call completed with done although its payload was accepted (completion_forwarder vs stop token)");
     if (who == 1 && !value && report_forwarder && ((call_fn_ran && immediate == 0) || handed_by_try))
-      rt::fail("async_accept completed with done although a payload was handed to it (completion_forwarder honours the stop token)");
+      rt::fail("async_accept completed with done although a payload was handed to it (completion_forwarder vs stop token)");
     if (who == 1 && value && !((payload == 1 && call_fn_ran) || (payload == 2 && handed_by_try)))
       rt::fail("async_accept received payload %d that nobody handed over", payload);
     if (value) rt::obs(who == 0 ? "call.value" : "accept.value %d", payload); else rt::obs("%s.done", nm);
@@ -149,8 +149,24 @@ SCENARIO(pass_cancel_call) {
   w.finish(true, true);
 }
 
+// Same with a scheduler that ignores stop tokens: no defect, `cancelled_` alone decides.
+SCENARIO(pass_cancel_call_plain) {
+  PWorld w; w.report_forwarder = true; w.ctx[0].honour_stop = false; w.ctx[1].honour_stop = false;
+  int t1 = rt::spawn([&] { w.call<true>(); });
+  int t2 = rt::spawn([&] { w.accept<false>(); });
+  int t3 = rt::spawn([&] { w.stop(0); });
+  rt::join(t3); rt::join(t1);
+  if (!w.served()) {
+    w.await_expecting_call();
+    if (!w.try_call()) rt::fail("a cancelled call did not leave the acceptor waiting");
+  }
+  rt::join(t2);
+  w.finish(true, true);
+}
+
+// The accept can be cancelled.  REPORTS the mirror image of the same defect (payload dropped).
 SCENARIO(pass_cancel_accept) {
-  PWorld w;
+  PWorld w; w.report_forwarder = true;
   int t1 = rt::spawn([&] { w.call<false>(); });
   int t2 = rt::spawn([&] { w.accept<true>(); });
   int t3 = rt::spawn([&] { w.stop(1); });
